@@ -46,6 +46,8 @@ fn compile_one() {
 }
 
 struct Ran {
+    /// the signal that ended the process, if one did
+    signal: Option<i32>,
     code: Option<i32>,
     stdout: String,
     stderr: String,
@@ -58,7 +60,7 @@ fn run_cmd(cmd: &mut Command, stdin: Option<&str>, limit_s: u64) -> Ran {
     cmd.stdin(if stdin.is_some() { Stdio::piped() } else { Stdio::null() }).stdout(Stdio::piped()).stderr(Stdio::piped());
     let mut child = match cmd.spawn() {
         Ok(c) => c,
-        Err(e) => return Ran { code: None, stdout: String::new(), stderr: String::new(), timed_out: false, spawn_error: Some(e.to_string()) },
+        Err(e) => return Ran { signal: None, code: None, stdout: String::new(), stderr: String::new(), timed_out: false, spawn_error: Some(e.to_string()) },
     };
     if let Some(text) = stdin {
         let mut si = child.stdin.take().unwrap();
@@ -96,6 +98,7 @@ fn run_cmd(cmd: &mut Command, stdin: Option<&str>, limit_s: u64) -> Ran {
         }
     };
     Ran {
+        signal: status.and_then(|s| std::os::unix::process::ExitStatusExt::signal(&s)),
         code: status.and_then(|s| s.code()),
         stdout: String::from_utf8_lossy(&t1.join().unwrap_or_default()).to_string(),
         stderr: String::from_utf8_lossy(&t2.join().unwrap_or_default()).to_string(),
@@ -117,7 +120,7 @@ fn tool(cmd: &str, args: &[&str], limit_s: u64) -> Result<(), String> {
             return Ok(());
         }
         last = format!("{cmd} {}: {}", if r.timed_out { "timed out".to_string() } else { format!("exit {:?}", r.code) }, r.stderr.chars().take(600).collect::<String>());
-        let killed_outside = r.code.is_none() && !r.timed_out && r.stderr.trim().is_empty();
+        let killed_outside = matches!(r.signal, Some(9) | Some(15)) && !r.timed_out && r.stderr.trim().is_empty();
         if !(r.timed_out || killed_outside) {
             break;
         }
@@ -138,16 +141,17 @@ fn execute(cmd: &str, args: &[&str]) -> Value {
         match r.code {
             Some(c) => return json!({"stdout": r.stdout, "exit": c, "stderr": r.stderr.chars().take(300).collect::<String>()}),
             None => {
-                if r.stderr.trim().is_empty() && r.stdout.is_empty() {
-                    // killed from outside (the box is shared): again
+                // SIGKILL / SIGTERM come from outside (the box is shared: OOM killer, another agent's cleanup): again.
+                // SIGSEGV, SIGILL, SIGBUS, SIGFPE, SIGABRT, SIGTRAP are the program's own doing: an observation.
+                if matches!(r.signal, Some(9) | Some(15)) && r.stderr.trim().is_empty() {
                     std::thread::sleep(std::time::Duration::from_millis(200));
                     continue;
                 }
-                return json!({"signal": true, "stdout": r.stdout, "stderr": r.stderr.chars().take(300).collect::<String>()});
+                return json!({"signal": r.signal, "stdout": r.stdout, "stderr": r.stderr.chars().take(300).collect::<String>()});
             }
         }
     }
-    json!({"toolerror": format!("{cmd} was killed by a signal from outside three times in a row")})
+    json!({"toolerror": format!("{cmd} was killed (SIGKILL / SIGTERM) three times in a row")})
 }
 
 fn compile_isolated(source: &str) -> Value {
@@ -161,7 +165,7 @@ fn compile_isolated(source: &str) -> Value {
         if r.code == Some(0) {
             return serde_json::from_str(&r.stdout).unwrap_or(json!({"toolerror": "bad child output"}));
         }
-        let killed_outside = r.code.is_none() && !r.timed_out && r.stderr.trim().is_empty();
+        let killed_outside = matches!(r.signal, Some(9) | Some(15)) && !r.timed_out && r.stderr.trim().is_empty();
         last = if r.timed_out {
             json!({"crash": "timeout"})
         } else if let Some(c) = r.code {
@@ -174,6 +178,49 @@ fn compile_isolated(source: &str) -> Value {
         }
     }
     last
+}
+
+/// what the IR says about calling conventions and linkage: per function symbol the convention and linkage of its
+/// `define` / `declare`, and the conventions of the call instructions that name it
+fn ir_facts(ir: &str) -> Value {
+    fn cc_of(tokens: &str) -> String {
+        for t in tokens.split_whitespace() {
+            if t == "fastcc" || t == "coldcc" || t == "tailcc" || t == "swiftcc" || t == "ghccc" || t == "webkit_jscc" || t == "anyregcc"
+                || t == "preserve_mostcc" || t == "preserve_allcc" || (t.starts_with("cc") && t[2..].chars().all(|c| c.is_ascii_digit()) && t.len() > 2)
+                || (t.ends_with("cc") && t.contains('_'))
+            {
+                return t.to_string();
+            }
+        }
+        "ccc".to_string()
+    }
+    fn name_after_at(rest: &str) -> Option<String> {
+        let at = rest.find('@')?;
+        let tail = &rest[at + 1..];
+        let end = tail.find('(')?;
+        let n = tail[..end].trim_matches('"');
+        if n.chars().all(|c| c.is_ascii_alphanumeric() || c == '_' || c == '.') { Some(n.to_string()) } else { None }
+    }
+    let mut fns = serde_json::Map::new();
+    let mut calls: std::collections::BTreeMap<String, std::collections::BTreeSet<String>> = Default::default();
+    for line in ir.lines() {
+        let l = line.trim_start();
+        if l.starts_with("define ") || l.starts_with("declare ") {
+            let kind = if l.starts_with("define ") { "define" } else { "declare" };
+            if let (Some(at), Some(n)) = (l.find('@'), name_after_at(l)) {
+                let head = &l[..at];
+                let linkage = if head.split_whitespace().any(|t| t == "private") { "private" } else if head.split_whitespace().any(|t| t == "internal") { "internal" } else { "external" };
+                fns.insert(n, json!({"kind": kind, "cc": cc_of(head), "linkage": linkage}));
+            }
+        } else if let Some(pos) = l.find("call ") {
+            let rest = &l[pos + 5..];
+            // (a varargs call names the function type first: `call i32 (i8*, ...) @snprintf(`)
+            if let (Some(at), Some(n)) = (rest.find('@'), name_after_at(rest)) {
+                calls.entry(n).or_default().insert(cc_of(&rest[..at].split('(').next().unwrap_or("")));
+            }
+        }
+    }
+    json!({"fns": fns, "calls": calls})
 }
 
 fn p(dir: &Path, name: &str) -> String {
@@ -234,7 +281,7 @@ fn run_pair(dir: &Path, penne: &str, csrc: &str, chains: &[String]) -> Value {
         }
         out.insert(chain.clone(), r);
     }
-    json!({"compile": {"ok": true, "lints": c["lints"]}, "chains": out})
+    json!({"compile": {"ok": true, "lints": c["lints"]}, "chains": out, "ir": ir_facts(c["ir"].as_str().unwrap_or(""))})
 }
 
 fn work_root() -> PathBuf {
